@@ -630,7 +630,7 @@ func TestPropMachine(t *testing.T) {
 	inconclusive := 0
 	rapid.Check(t, func(rt *rapid.T) {
 		c := Case{Kind: "machine"}
-		c.Concurrency = rapid.SampledFrom([]int{1, 2, 3, 8}).Draw(rt, "concurrency")
+		c.Concurrency = rapid.SampledFrom([]int{1, 2, 3, 8, 3, 8}).Draw(rt, "concurrency")
 		c.Questions = genQuestions(rt)
 		s := newSystem(c)
 		defer s.shutdown()
@@ -696,7 +696,7 @@ func TestPropMachine(t *testing.T) {
 		}
 		advance := func(rt *rapid.T) { do(Action{Op: "advance"}) }
 		rt.Repeat(map[string]func(*rapid.T){
-			"start1": start, "start2": start, "start3": start, "startSame1": startSame, "startSame2": startSame,
+			"start1": start, "start2": start, "start3": start, "start4": start, "startSame": startSame,
 			"releaseOK1": relOK, "releaseOK2": relOK,
 			"releaseErr": relErr,
 			"advance":    advance,
@@ -715,6 +715,12 @@ func TestPropMachine(t *testing.T) {
 		class, nt := s.classify()
 		s.c.Class = class
 		rec.Case(class, nt, caseKey(s.c), func() any { return s.c })
+		if s.sawWaiters {
+			rec.Count("machine_sequences_with_waiters_behind_inflight_key", 1)
+		}
+		if s.sawTwoKeys {
+			rec.Count("machine_sequences_with_two_questions_in_flight", 1)
+		}
 		rec.Count("steps", int64(len(s.c.Actions)))
 		rec.Count("settle_misses", int64(s.settleMisses))
 		st := s.g.Stats()
